@@ -502,6 +502,9 @@ impl C01 {
         for k in 0..n_gen {
             docs.push(pool.generated(&Family::Rich, k));
         }
+        for k in 0..(if tier == Tier::Quick { 4 } else { 16 }) {
+            docs.push(pool.generated(&Family::RichEncrypted, k));
+        }
         docs.push(pool.generated(&Family::TwoLeaf, 0));
         docs.push(pool.generated(&Family::TwoLeaf, 1));
         docs.push(pool.generated(&Family::DeepTree, 0));
